@@ -3,3 +3,4 @@ pub mod c03;
 pub mod c04;
 pub mod c09;
 pub mod c10;
+pub mod c20;
